@@ -124,7 +124,11 @@ fn main() {
     let args = parse_args();
     let r = std::panic::catch_unwind(|| match args.cmd.as_str() {
         "c08-dump" => c08_dump(&args),
-        "c07-zoo-serve" => zoo::serve(&args.doc, args.workers),
+        "c07-zoo-serve" => zoo::serve(&args.doc, args.workers, false),
+        "c07-trait-serve" => zoo::serve(&args.doc, args.workers, true),
+        "c07-trait-doc" => {
+            println!("{}", serde_json::to_string_pretty(&zoo::trait_document()).unwrap());
+        }
         "c07-zoo-doc" => {
             println!("{}", serde_json::to_string_pretty(&zoo::document()).unwrap());
         }
